@@ -5,7 +5,7 @@ from common import *
 import blob_streams as BS
 
 MODULE = "Props.C16"
-THEOREMS = ["C16_archive_is_last_build", "C16_open_serves_archive_only", "C16_build_own_dataset"]
+THEOREMS = ["C16_archive_is_last_build", "C16_open_serves_archive_only", "C16_build_own_dataset", "C16_reader_serves_last_archive"]
 PARTIAL = ["file formats (zip, parquet, npy, json) are outside the model: an archive is its member list; corruption is 'the archive does not unpack'; "
            "that zipfile detects truncation / flipped member bytes is trusted and exercised (truncation at random lengths, flipped bytes inside member data)",
            "the content clause (only anonymized tables + metadata, no salt, no ids) is checked on real archives: member names, a syntactic check of the writers, and the "
